@@ -161,6 +161,8 @@ func newFree(w workload, chanCap int, res *engine.Result) *machine.Machine {
 				// poke an I/O register
 				if r.Chance(1, 4) {
 					g.emit(0x3e, r.Byte(), 0xe0, uint8(0x30+r.Intn(16)))
+				} else if r.Chance(1, 3) {
+					g.emit(0x3e, r.Byte(), 0xe0, 0x01) // a byte to the serial port
 				} else {
 					g.emit(0x3e, r.Byte(), 0xe0, uint8(engine.Pick(r, scenePokeRegs)))
 				}
